@@ -120,6 +120,9 @@ def sp_lines(ctx, label):
 
 
 def run(ctx):
+    ctx.stream("leaf", gen.leaf_lines(ctx.rng.fork("leaf"), (2,), 2000 if ctx.quick else 100000),
+               "leaf functions (projectSignedHash): compiled C vs. the definition translated from the C text vs. the specification",
+               describe=lambda c: gen.LEAF_CODES.get(c, str(c)))
     lines = sp_lines(ctx, "main")
     ctx.stream("sp", lines, "sp: real hash range", describe=lambda c: CODES.get(c, str(c)), nontrivial=nontrivial, keyfn=keyfn)
     ranges = HASH_RANGES[:2] if ctx.quick else HASH_RANGES
